@@ -2,7 +2,7 @@
    the C19/ files; Print Assumptions is evaluated by ./check on every run. *)
 From Coq Require Import List ZArith Bool.
 From TskVerif Require Import Base.Common C19.Model C19.IbdAlg C19.RunsProofs C19.StoreProofs
-  C19.SpecProofs C19.AlgProofs C19.SliceProofs C19.RefineProofs.
+  C19.SpecProofs C19.AlgProofs C19.SliceProofs C19.RefineProofs C19.TwoPos.
 Import ListNotations.
 Open Scope Z_scope.
 
@@ -155,11 +155,14 @@ Proof. exact (@runs_unique_lemma). Qed.
    algorithm's segments of a pair are disjoint, cover exactly the positions with a common
    ancestor, and carry the right ancestor.  Together with alg_filter_commutes this extends to
    the filtered run.
-   Missing for the full statement: (1) that the segment END POINTS are exactly the positions
-   where one of the two edge chains changes (maximality / no over-splitting w.r.t. chains);
-   (2) the hypotheses valid_at are assumed, not derived from tsk_table_collection_check_integrity;
-   (3) `requested` is expressed with the algorithm's sample_set_id array, its equality with
-   Model.pair_requested is only checked per run. *)
+   The END POINTS are characterised by the next theorem (alg_same_record_iff_same_label).
+   Missing for the full statement: (1) the list plumbing from "the records of a pair partition
+   the positions with a common ancestor into the classes of equal label, labelled with the
+   MRCA" (proved) to equality of the sorted record list with `runs` (runs_unique is the tool,
+   the sorting / permutation argument is not done); (2) the hypotheses valid_at are assumed,
+   not derived from tsk_table_collection_check_integrity; (3) `requested` is expressed with the
+   algorithm's sample_set_id array, its equality with Model.pair_requested is only checked per
+   run; (4) `ibd_records = Ok` (no out-of-bounds access) is a hypothesis. *)
 Theorem ibd_alg_refines_spec_partial :
   forall (c : case) (ssid : list Z) (out0 : list record) (x a b : Z) (lab : option label),
     init_ssid c = Ok ssid ->
@@ -167,7 +170,7 @@ Theorem ibd_alg_refines_spec_partial :
     0 <= x < cL c -> a <> b ->
     ibd_records (unfiltered c) = Ok out0 ->
     label_at (spec_fuel c) (cedges c) x a b = Ok lab ->
-    map (fun r => seg_node (rec_seg r)) (filter (fun r => covx x (rec_seg r) && pair_is a b r) out0)
+    map (fun r => seg_node (rec_seg r)) (filter (fun r => covx (cov1 x) (rec_seg r) && pair_is a b r) out0)
     = if requested (is_between c) ssid a b
       then match lab with Some l => [label_mrca l] | None => [] end
       else [].
@@ -178,3 +181,21 @@ Proof. exact alg_position_correct_lemma. Qed.
 Theorem valid_at_checker_sound :
   forall times es x, valid_atb times es x = true -> valid_at times es x.
 Proof. exact valid_atb_sound. Qed.
+
+(* (f, end points) two positions x, y lie in one and the same record of a requested pair iff
+   the specification labels them identically — same MRCA reached through the same two edge
+   chains; at most one record of the pair covers both.  So the algorithm breaks a pair's
+   segments exactly where the label changes (it neither merges across a path change with the
+   same MRCA nor splits inside a run). *)
+Theorem alg_same_record_iff_same_label :
+  forall (c : case) (ssid : list Z) (out0 : list record) (x y a b : Z) (lx ly : option label),
+    init_ssid c = Ok ssid ->
+    valid_at (ctimes c) (cedges c) x -> valid_at (ctimes c) (cedges c) y ->
+    0 <= x < cL c -> 0 <= y < cL c -> a <> b ->
+    requested (is_between c) ssid a b = true ->
+    ibd_records (unfiltered c) = Ok out0 ->
+    label_at (spec_fuel c) (cedges c) x a b = Ok lx ->
+    label_at (spec_fuel c) (cedges c) y a b = Ok ly ->
+    let both := filter (fun r => covx (cov2 x y) (rec_seg r) && pair_is a b r) out0 in
+    (length both <= 1)%nat /\ (both <> [] <-> (lx = ly /\ lx <> None)).
+Proof. exact alg_same_record_iff_same_label_lemma. Qed.
